@@ -75,7 +75,9 @@ def cases(draw):
         # points and arc boxes visited by the unfiltered run
         pr = printer.Printer(bool(cfg.get("g90e")))
         pts, boxes, axis_cross, arcs = [(0.0, 0.0)], [], [], []
+        upto = []          # per program item: how many points / arcs had been visited before it
         for item in rnd.prog:
+            upto.append((len(pts), len(boxes)))
             if item[0] != "g":
                 continue
             before = (pr.x, pr.y)
@@ -147,6 +149,22 @@ def cases(draw):
             f = fit(c, pts, boxes)
             if f is not None and (f["type"] == "circ" or (f["x1"] > 2 or f["y1"] > 2 or True)):
                 regions.append(f)
+        # a region edited mid-print: it starts larger (clear of everything visited up to then) and is replaced, under the same
+        # id, by its final geometry (clear of the whole path) - the destinations stay clear of the region set in force throughout
+        if regions and len(rnd.prog) > 6 and draw(st.integers(0, 2)) == 0:
+            k = draw(st.integers(3, len(rnd.prog) - 1))
+            ridx = draw(st.integers(0, len(regions) - 1))
+            fin = regions[ridx]
+            f = draw(st.sampled_from([1.5, 2.0, 3.0]))
+            if fin["type"] == "rect":
+                cx, cy, w, h = (fin["x1"] + fin["x2"]) / 2, (fin["y1"] + fin["y2"]) / 2, abs(fin["x2"] - fin["x1"]) * f / 2 + 0.5, abs(fin["y2"] - fin["y1"]) * f / 2 + 0.5
+                big = dict(fin, x1=cx - w, y1=cy - h, x2=cx + w, y2=cy + h)
+            else:
+                big = dict(fin, r=fin["r"] * f + 0.5)
+            np_, nb_ = upto[k]
+            if clear_of(big, pts[:np_], boxes[:nb_]) and geom.signed_dist(big, 0.0, 0.0) > 3.0:
+                regions[ridx] = big
+                rnd.prog.insert(k, ["rereg", fin])
     return {"config": cfg, "regions": regions, "prog": rnd.prog,
             "meta": {"mode": mode, "fw": fw, "excluded_known": rnd.excluded_known}}
 
@@ -186,6 +204,8 @@ def run_case(case, strict=False):  # pylint: disable=unused-argument
                 out.append(asserts.F("c02_at_sends", it, "@-command sent %r although no episode can be open" % (it.out,)))
     if case["regions"]:
         cl.add("has_regions")
+    if any(i[0] == "rereg" for i in case["prog"]):
+        cl.add("region_edited_mid_print")
     for k in ("g90e", "ext", "debug"):
         if case["config"].get(k):
             cl.add("cfg_" + k)
